@@ -6,7 +6,7 @@
    this is libm rounding the real-number model cannot exhibit. *)
 From Coq Require Import Arith List Reals QArith Qcanon.
 From GPV Require Import Base.LinAlg Base.Exec Base.Expr Models.C17_constraints
-  Proofs.C17_constraints Proofs.C17_extra.
+  Proofs.C17_constraints Proofs.C17_extra Proofs.C17_lkj.
 Import ListNotations.
 
 (* range: for EVERY real raw value the transformed value is strictly inside the bounds
@@ -151,6 +151,26 @@ Theorem c17_uniform_prior_normalised :
       (fun _ => exp (den (lp_uniform a b))) (den a) (den b) = 1%R.
 Proof. exact uniform_normalised. Qed.
 Print Assumptions c17_uniform_prior_normalised.
+
+(* LKJ priors.  [lp_lkj_corr] is the density DOCUMENTED for LKJPrior (over correlation matrices):
+   log( C |Sigma|^(eta-1) ) with |Sigma| = prod_i L_ii^2 ... *)
+Theorem c17_lkj_corr_is_det_power :
+  forall (n : nat) (eta : expr) (ds : list expr), Forall (fun d => (0 < den d)%R) ds ->
+    den (lp_lkj_corr n eta ds)
+    = ((den eta - 1) * ln (prod_sq (map den ds)) - den (e_lkj_lognorm n eta))%R.
+Proof. exact lkj_corr_is_det_power. Qed.
+Print Assumptions c17_lkj_corr_is_det_power.
+
+(* ... and [lp_lkj_chol] (LKJCholeskyFactorPrior = torch LKJCholesky, the density of the Cholesky
+   FACTOR) is that density times the Jacobian prod_{i>=2} L_ii^(n-i) of Sigma -> L.  LKJPrior.log_prob
+   (Sigma) returns lp_lkj_chol at chol(Sigma): for n >= 3 that is NOT the documented density of
+   Sigma (known finding C17-lkjprior-factor-density; a pinned test requires the current value). *)
+Theorem c17_lkj_chol_is_corr_plus_jacobian :
+  forall (eta d : expr) (ds : list expr), den d = 1%R ->
+    den (lp_lkj_chol (S (length ds)) eta (d :: ds))
+    = (den (lp_lkj_corr (S (length ds)) eta (d :: ds)) + den (e_lkj_logjac (S (length ds)) (d :: ds)))%R.
+Proof. exact lkj_chol_is_corr_plus_jacobian. Qed.
+Print Assumptions c17_lkj_chol_is_corr_plus_jacobian.
 
 (* transform is injective; raw initialisation and optimiser steps read the transform of the new raw value *)
 Theorem c17_transform_injective :
